@@ -254,4 +254,4 @@ def observable(case, impl, model, dbg):
 
 def prebuild(root):
     """translator: regenerate coq/Generated/Loops.v from /repo/src (from_uint! is proved equal to the model in Proofs/LoopsTieC13.v)"""
-    return run_translator(root, "rs2v_loops.py", "C13") or run_translator(root, "rs2v_conv.py", "C13")
+    return run_translator(root, "rs2v_loops.py", "C13") or run_translator(root, "rs2v_conv.py", "C13") or run_translator(root, "rs2v_xcast.py", "C13")
